@@ -15,7 +15,9 @@ pub mod c12;
 pub mod c13;
 pub mod c14;
 pub mod c15;
+pub mod c16;
 pub mod c17;
+pub mod c18;
 #[cfg(feature = "crypto")]
 pub mod c19;
 pub mod c20;
@@ -40,7 +42,9 @@ pub fn lookup(id: &str) -> Option<PropertyDef> {
 		"C13" => c13::def(),
 		"C14" => c14::def(),
 		"C15" => c15::def(),
+		"C16" => c16::def(),
 		"C17" => c17::def(),
+		"C18" => c18::def(),
 		#[cfg(feature = "crypto")]
 		"C19" => c19::def(),
 		"C20" => c20::def(),
@@ -48,4 +52,4 @@ pub fn lookup(id: &str) -> Option<PropertyDef> {
 	})
 }
 
-pub const ALL: &[&str] = &["C01", "C02", "C03", "C04", "C05", "C06", "C07", "C08", "C09", "C10", "C11", "C12", "C13", "C14", "C15", "C17", "C19", "C20"];
+pub const ALL: &[&str] = &["C01", "C02", "C03", "C04", "C05", "C06", "C07", "C08", "C09", "C10", "C11", "C12", "C13", "C14", "C15", "C16", "C17", "C18", "C19", "C20"];
